@@ -108,7 +108,9 @@ func (p *Process) run() int {
 		// stopped before it was started: the stop request marks the pending instance
 		// as done (Terminating); once it has, there is nothing left to terminate
 		p.waitForCompletion()
-		p.setState(types.ProcessStateCompleted)
+		// the state record is shared with newer instances of this process: only move on from
+		// the Terminating this stop left behind, never overwrite what a successor reported
+		p.setStateIfOneOf(types.ProcessStateCompleted, types.ProcessStateTerminating)
 		return 0
 	}
 
@@ -743,16 +745,21 @@ func (p *Process) setState(state string) {
 
 // setStateIfRunning sets the state only if the process is still running (atomically)
 func (p *Process) setStateIfRunning(state string) bool {
+	return p.setStateIfOneOf(state, types.ProcessStateRunning, types.ProcessStateLaunched, types.ProcessStateLaunching)
+}
+
+// setStateIfOneOf sets the state only if the current one is among `from` (atomically)
+func (p *Process) setStateIfOneOf(state string, from ...string) bool {
 	p.stateMtx.Lock()
 	defer p.stateMtx.Unlock()
-	switch p.procState.Status {
-	case types.ProcessStateRunning, types.ProcessStateLaunched, types.ProcessStateLaunching:
-	default:
-		return false
+	for _, f := range from {
+		if p.procState.Status == f {
+			p.procState.Status = state
+			p.onStateChange(state)
+			return true
+		}
 	}
-	p.procState.Status = state
-	p.onStateChange(state)
-	return true
+	return false
 }
 
 func (p *Process) getState() *types.ProcessState {
